@@ -512,7 +512,7 @@ class Gen:
         if k == "mem":
             return Node("mem", self.simple(d - 1, ctx), self.new_site())
         if k == "delay":
-            if self.p.get("avoid_f2", True) and ctx["delays"]:
+            if self.p.get("avoid_f2", False) and ctx["delays"]:
                 n = next(iter(ctx["delays"]))
             else:
                 n = r.pick([2, 3, 4, 5, 8, 16, 64])
@@ -856,28 +856,28 @@ class Gen:
 
 PROFILES = {
     # the space where C02 must hold on the pinned tree (known findings steered away from)
-    "core": dict(avoid_f2=True, avoid_f3=True),
+    "core": dict(avoid_f3=True),
     # scalar programs with state: the fragment on which VM, WASM and the reference semantics agree on the pinned tree
-    "scalar": dict(avoid_f2=True, avoid_f3=True, lambdas=False, tuples=False, records=False),
-    "records": dict(avoid_f2=True, avoid_f3=True, lambdas=False, tuples=False, records=True),
-    "scalar_tself": dict(avoid_f2=True, avoid_f3=True, lambdas=False, tuples=False, tuple_self=True),
-    "scalar_deep": dict(avoid_f2=True, avoid_f3=True, lambdas=False, tuples=False, depth=5, max_fns=5),
-    "closure_assign": dict(avoid_f2=True, avoid_f3=True, closure_assign=True),
-    "scalar_nr": dict(avoid_f2=True, avoid_f3=True, lambdas=False, tuples=False, records=False, rounding=False),
-    "core_nr": dict(avoid_f2=True, avoid_f3=True, rounding=False),
-    "deep_nr": dict(avoid_f2=True, avoid_f3=True, depth=5, max_fns=5, rounding=False),
-    "closure_assign_nr": dict(avoid_f2=True, avoid_f3=True, closure_assign=True, rounding=False),
-    "nolam": dict(avoid_f2=True, avoid_f3=True, lambdas=False),
-    "notup": dict(avoid_f2=True, avoid_f3=True, tuples=False),
-    "stateless": dict(avoid_f2=True, avoid_f3=True, stateful_pct=0, self=False),
-    "deep": dict(avoid_f2=True, avoid_f3=True, depth=5, max_fns=5),
+    "scalar": dict(avoid_f3=True, lambdas=False, tuples=False, records=False),
+    "records": dict(avoid_f3=True, lambdas=False, tuples=False, records=True),
+    "scalar_tself": dict(avoid_f3=True, lambdas=False, tuples=False, tuple_self=True),
+    "scalar_deep": dict(avoid_f3=True, lambdas=False, tuples=False, depth=5, max_fns=5),
+    "closure_assign": dict(avoid_f3=True, closure_assign=True),
+    "scalar_nr": dict(avoid_f3=True, lambdas=False, tuples=False, records=False, rounding=False),
+    "core_nr": dict(avoid_f3=True, rounding=False),
+    "deep_nr": dict(avoid_f3=True, depth=5, max_fns=5, rounding=False),
+    "closure_assign_nr": dict(avoid_f3=True, closure_assign=True, rounding=False),
+    "nolam": dict(avoid_f3=True, lambdas=False),
+    "notup": dict(avoid_f3=True, tuples=False),
+    "stateless": dict(avoid_f3=True, stateful_pct=0, self=False),
+    "deep": dict(avoid_f3=True, depth=5, max_fns=5),
     # streams aimed AT the known findings (their failures must be the listed ones)
     "f2": dict(avoid_f2=False, avoid_f3=True),
-    "f3": dict(avoid_f2=True, avoid_f3=False),
+    "f3": dict(avoid_f3=False),
     # aggregate pressure (tools/gen/aggrgen.py): many live multi-word values, writes into their middles, single-word results
     # of stateful operations in between, every leaf read back at the end
     # core + one stateless function that calls itself (a literal number of times)
-    "rec": dict(avoid_f2=True, avoid_f3=True, recursion=True),
+    "rec": dict(avoid_f3=True, recursion=True),
     "aggr": dict(gen="aggr"),
     "aggr_nofn": dict(gen="aggr", fn_fields=False),
 }
